@@ -15,7 +15,7 @@ pub fn prop() -> Prop {
     Prop {
         id: "C06",
         level: "exploration",
-        rule: "complete cross products: integer boundary lattice (0, ±1, ±2, ±7, ±2^k, ±(2^k±1), k<=60, both range ends, two seed-rotated values) squared x 11 operators x 3 syntactic forms (literal op literal; variable op literal and literal op variable inside a function, which selects the fused opcodes); 26 float values squared x 11 operators; 110 neighbouring floats (values 0, 1 and 2 units in the last place around 11 magnitudes, both signs) squared x 6 comparisons x 2 forms, and arithmetic results against the literal next to them; all string pairs of length <=2 over {a,b,é,😀} x 6 comparisons; strings of 3..33 characters (around the machine-word sizes) that differ at one position, at two positions in opposite directions (every pair of positions), by a wide character, or by being a prefix, x 6 comparisons x 2 forms; all 7x7 type pairs x 13 operators; !(x op y) for every float pair and every type pair x 6 comparisons; order axioms over all triples of 40-value subsets read through the interpreter. A case is one program; it is non-trivial if it parsed back to the generated tree and the reference model defines its outcome (not Ux); distinct = distinct program texts",
+        rule: "complete cross products: integer boundary lattice (0, ±1, ±2, ±7, ±2^k, ±(2^k±1), k<=60, both range ends, two seed-rotated values) squared x 11 operators x 4 syntactic forms (literal op literal; variable op literal, literal op variable and variable op variable inside a function; the fused opcodes are selected by the middle two); 66 ordinary integers (round decimals, values between 2^31 and 2^32, factors around the square root of the range limit) squared x 11 operators x 4 forms, and against every float in both orders; 26 float values squared x 11 operators; 110 neighbouring floats (values 0, 1 and 2 units in the last place around 11 magnitudes, both signs) squared x 6 comparisons x 2 forms, and arithmetic results against the literal next to them; all string pairs of length <=2 over {a,b,é,😀} x 6 comparisons; strings of 3..33 characters (around the machine-word sizes) that differ at one position, at two positions in opposite directions (every pair of positions), by a wide character, or by being a prefix, x 6 comparisons x 2 forms; all 7x7 type pairs x 13 operators; !(x op y) for every float pair and every type pair x 6 comparisons; order axioms over all triples of 40-value subsets read through the interpreter. A case is one program; it is non-trivial if it parsed back to the generated tree and the reference model defines its outcome (not Ux); distinct = distinct program texts",
         assumptions: &[
             "the reference model's operator table (refint::infix: i64 checked arithmetic within the 61-bit range, Rust f64, str ordering) is the specification",
             "operand values outside the enumerated lattices are not covered",
@@ -497,7 +497,41 @@ fn run(sh: &mut Shard) {
     for (kind, vals) in axiom_sets(tier, seed) {
         axioms(sh, kind, &vals);
     }
-    // F1 the integer lattice, three forms
+    // F1b ordinary (non-boundary) integers: round decimals, values between 2^31 and 2^32, factors whose product
+    // lies just below / at / above the range limit, multiples and non-multiples; every pair, every operator,
+    // four forms (literals; local op literal; literal op local; local op local)
+    {
+        let mut ord: Vec<i64> = vec![
+            3, 5, 8, 10, 12, 100, 255, 1000, 1001, 1024, 12345, 65535, 99999, 1_000_000, 16_777_217, 123_456_789, 2_147_483_647, 2_147_483_648, 3_000_000_000, 4_294_967_295, 4_294_967_296,
+            4_294_967_297, 10_000_000_000, 1_000_000_000_000, 9_007_199_254_740_993, 1_000_000_000_000_000_000,
+            // around the square root of the range limit 2^60: products just inside and just outside
+            1_073_741_823, 1_073_741_824, 1_073_741_825, 759_250_124, 759_250_125, 1_518_500_249, 1_518_500_250,
+        ];
+        let neg: Vec<i64> = ord.iter().map(|x| -x).collect();
+        ord.extend(neg);
+        for a in &ord {
+            for b in &ord {
+                for op in &ops {
+                    run_case(sh, "int-ordinary", &[es(infix(lit_expr(*a), op.clone(), lit_expr(*b)))]);
+                    run_case(sh, "int-ordinary", &[es(call(func("", &["x"], vec![es(infix(id("x"), op.clone(), lit_expr(*b)))]), vec![lit_expr(*a)]))]);
+                    run_case(sh, "int-ordinary", &[es(call(func("", &["x"], vec![es(infix(lit_expr(*a), op.clone(), id("x")))]), vec![lit_expr(*b)]))]);
+                    run_case(sh, "int-ordinary", &[es(call(func("", &["x", "y"], vec![es(infix(id("x"), op.clone(), id("y")))]), vec![lit_expr(*a), lit_expr(*b)]))]);
+                }
+            }
+        }
+        // integers against floats (an integer beyond 2^53 is not exactly a float), both orders, as values and locals
+        let fv = float_values();
+        for a in ord.iter().chain([0i64, 1, -1, 2, 7, (1 << 53) + 1, (1 << 60) - 1].iter()) {
+            for f in &fv {
+                for op in &ops {
+                    run_case(sh, "int-float", &[es(infix(lit_expr(*a), op.clone(), float_expr(*f)))]);
+                    run_case(sh, "int-float", &[es(infix(float_expr(*f), op.clone(), lit_expr(*a)))]);
+                    run_case(sh, "int-float", &[es(call(func("", &["x", "y"], vec![es(infix(id("x"), op.clone(), id("y")))]), vec![lit_expr(*a), float_expr(*f)]))]);
+                }
+            }
+        }
+    }
+    // F1 the integer lattice, four forms
     let lat = lattice(tier, seed);
     for a in &lat {
         run_case(sh, "int-negate", &[es(neg(lit_expr(*a)))]);
@@ -522,6 +556,12 @@ fn run(sh: &mut Shard) {
                     sh,
                     "int-lit-var",
                     &[es(call(func("", &["x"], vec![es(infix(lit_expr(*a), op.clone(), id("x")))]), vec![lit_expr(*b)]))],
+                );
+                // local op local
+                run_case(
+                    sh,
+                    "int-var-var",
+                    &[es(call(func("", &["x", "y"], vec![es(infix(id("x"), op.clone(), id("y")))]), vec![lit_expr(*a), lit_expr(*b)]))],
                 );
             }
         }
@@ -549,7 +589,7 @@ fn replay(sh: &mut Shard, case: &Value) {
 }
 
 fn vacuity(m: &Merged) -> Option<String> {
-    for fam in ["int-literal", "int-var-lit", "int-lit-var", "float", "string", "string-long", "float-neighbours", "negated-comparison", "cross-type", "bool-table", "axioms"] {
+    for fam in ["int-literal", "int-var-lit", "int-lit-var", "int-var-var", "int-ordinary", "int-float", "float", "string", "string-long", "float-neighbours", "negated-comparison", "cross-type", "bool-table", "axioms"] {
         if m.counters.get(&format!("family:{fam}")).copied().unwrap_or(0) == 0 {
             return Some(format!("family {fam} produced no case"));
         }
